@@ -3,6 +3,7 @@ package main
 // Symbolic execution of go/ssa functions with state merging, loop cut points and calls by contract.
 
 import (
+	"strconv"
 	"fmt"
 	"os"
 	"go/ast"
@@ -66,6 +67,7 @@ type Exec struct {
 	absReads  []absRead
 	instSeen  map[[3]int]bool
 	sumBySrc  map[string][]string
+	nlinks    int
 	idxElemSort map[int]map[string]bool
 }
 
@@ -141,6 +143,54 @@ func (x *Exec) oblige(st *State, kind string, goal *Term, pos token.Pos, note st
 			Pos: posStr, Note: note, Status: "proved", Solver: "trivial"})
 	}
 	x.assumeFact(st, orig)
+}
+
+// assertsBefore evaluates the `before <callee> assert` clauses of the function under verification at a call of <callee>
+// in its own body (not in inlined callees).
+func (x *Exec) assertsBefore(fr *Frame, st *State, in *ssa.Call) {
+	if fr.contract == nil || fr.caller != nil || x.pure > 0 {
+		return
+	}
+	name := ""
+	if in.Call.IsInvoke() {
+		name = in.Call.Method.Name()
+	} else if f := in.Call.StaticCallee(); f != nil {
+		name = f.Name()
+	}
+	if name == "" {
+		return
+	}
+	for _, cl := range fr.contract.Clauses {
+		if cl.Kind == "bind" && cl.Name == name {
+			cl.Used = true
+			ev := &evaluator{x: x, fr: fr, st: st, lets: map[string]*Val{}, lazy: map[string]ast.Expr{}, blk: in.Block(), midBlock: true}
+			for k, v := range fr.lets {
+				ev.lets[k] = v
+			}
+			v := ev.eval(cl.Expr)
+			fr.lets[cl.Bind] = v
+		}
+	}
+	var cls []*Clause
+	for _, cl := range fr.contract.Clauses {
+		if cl.Kind == "assert" && cl.Name == name {
+			cls = append(cls, cl)
+		} else if cl.Kind == "let" && cl.Loop == 0 {
+			cls = append(cls, cl)
+		}
+	}
+	has := false
+	for _, cl := range cls {
+		if cl.Kind == "assert" {
+			has = true
+		}
+	}
+	if !has {
+		return
+	}
+	for _, r := range x.evalClausesAt(fr, st, cls, nil, "assert", in.Block()) {
+		x.oblige(st, "assert(before "+name+")", r.t, in.Pos(), r.cl.Src)
+	}
 }
 
 // reachProbe records a satisfiability probe: the facts assumed so far together with the path condition must not be
@@ -933,7 +983,7 @@ func (x *Exec) evalClauses(fr *Frame, st *State, cls []*Clause, over map[ssa.Val
 
 func (x *Exec) evalClausesAt(fr *Frame, st *State, cls []*Clause, over map[ssa.Value]*Val, kind string, blk *ssa.BasicBlock) []evalRes {
 	var out []evalRes
-	ev := &evaluator{x: x, fr: fr, st: st, over: over, lets: map[string]*Val{}, lazy: map[string]ast.Expr{}, blk: blk}
+	ev := &evaluator{x: x, fr: fr, st: st, over: over, lets: map[string]*Val{}, lazy: map[string]ast.Expr{}, blk: blk, midBlock: kind == "assert"}
 	for k, v := range fr.lets {
 		ev.lets[k] = v
 	}
@@ -1170,6 +1220,7 @@ func (x *Exec) step(fr *Frame, st *State, ins ssa.Instruction) {
 		}
 		fr.env[in] = t.Tuple[in.Index]
 	case *ssa.Call:
+		x.assertsBefore(fr, st, in)
 		fr.env[in] = x.call(fr, st, &in.Call, in)
 	case *ssa.MakeInterface:
 		fr.env[in] = x.makeInterface(st, x.get(fr, in.X), in.Type())
@@ -1680,7 +1731,10 @@ func (x *Exec) sliceOp(fr *Frame, st *State, in *ssa.Slice) *Val {
 		}
 		// capacity is not modelled: bounds are checked against the length (stricter than Go, never laxer)
 		x.oblige(st, "slice", And(Le(IntLit(0), lo), Le(lo, hi), Le(hi, ln)), in.Pos(), "slice bounds in range")
-		_ = bt
+		// the cut position is a term of interest for the quantified facts about the slice's elements
+		if _, isLit := lo.intVal(); !isLit {
+			x.addReadInterest(st, x.elemArr(st, bt.Elem(), slRef(base.T)), slOff(base.T), lo)
+		}
 		return &Val{T: mkSlice(slRef(base.T), Add(slOff(base.T), lo), Sub(hi, lo)), Typ: in.Type()}
 	}
 	if pt, ok := base.Typ.Underlying().(*types.Pointer); ok {
@@ -1871,6 +1925,10 @@ func (x *Exec) linkSums(st *State, app *Term) {
 		if x.instSeen[k3] {
 			continue
 		}
+		if x.nlinks >= nlinkCap() {
+			return // each link names a witness whose reads trigger further instances: keep the chain finite
+		}
+		x.nlinks++
 		x.instSeen[k3] = true
 		sib := App(other, SInt, append(append([]*Term{}, actuals...), lo, hi)...)
 		w := Fresh("sumw", SInt)
@@ -1887,6 +1945,9 @@ func (x *Exec) linkSums(st *State, app *Term) {
 		x.linkAtTerms(bb)
 		x.typeReadsIn(st, ba)
 		x.typeReadsIn(st, bb)
+		// the reads at the witness index are terms of interest for the hypotheses about those arrays
+		x.interestFromGoal(st, ba)
+		x.interestFromGoal(st, bb)
 	}
 }
 
@@ -1949,10 +2010,73 @@ func substTerm(t *Term, sub map[int]*Term) *Term {
 		}
 		r := t
 		if changed {
-			r = TS.mk(t.op, t.val, t.sort, na...)
+			r = rebuildTerm(t, na)
 		}
 		memo[t.id] = r
 		return r
 	}
 	return f(t)
+}
+
+// rebuildTerm re-creates t with new arguments through the simplifying constructors, so that e.g. an accessor applied
+// to a substituted constructor term collapses (sl.ref(mkSlice(r, o, n)) = r) and backing-object keys stay comparable.
+func rebuildTerm(t *Term, na []*Term) *Term {
+	switch t.op {
+	case "+":
+		if len(na) == 2 {
+			return Add(na[0], na[1])
+		}
+	case "-":
+		if len(na) == 2 {
+			return Sub(na[0], na[1])
+		}
+	case "select":
+		if len(na) == 2 {
+			return Select(na[0], na[1])
+		}
+	case "ite":
+		if len(na) == 3 {
+			return Ite(na[0], na[1], na[2])
+		}
+	case "=":
+		if len(na) == 2 {
+			return Eq(na[0], na[1])
+		}
+	case "and":
+		return And(na...)
+	case "or":
+		return Or(na...)
+	case "not":
+		if len(na) == 1 {
+			return Not(na[0])
+		}
+	case "=>":
+		if len(na) == 2 {
+			return Implies(na[0], na[1])
+		}
+	case "<":
+		if len(na) == 2 {
+			return Lt(na[0], na[1])
+		}
+	case "<=":
+		if len(na) == 2 {
+			return Le(na[0], na[1])
+		}
+	}
+	if len(na) == 1 && t.val != "" && isCtor(na[0]) {
+		if idx, err := strconv.Atoi(t.val); err == nil && idx < len(na[0].args) {
+			if _, isFun := TS.funs[t.op]; !isFun {
+				return na[0].args[idx] // accessor of a constructor term
+			}
+		}
+	}
+	return TS.mk(t.op, t.val, t.sort, na...)
+}
+
+func nlinkCap() int {
+	if v := os.Getenv("GOVC_NLINKS"); v != "" {
+		n, _ := strconv.Atoi(v)
+		return n
+	}
+	return 6
 }
